@@ -42,9 +42,9 @@ func alphabetC01(cfg Cfg, tier string) []Op {
 
 func runC01(c *Ctx) {
 	cfgs := cfgQuick
-	depth := 3
+	depth := 4
 	if c.Tier == "thorough" {
-		depth = 4
+		depth = 5
 	}
 	for _, cfg := range cfgs {
 		e := &Explorer{C: c, Cfg: cfg, Prop: "C01", Alphabet: alphabetC01(cfg, c.Tier), Depth: depth, MaxLive: 3}
